@@ -202,3 +202,48 @@ def other_loop_over(f, field, what):
             hdr = [n.get("init"), n.get("cond"), n.get("inc")]
             if any(isnode(h) and any(x["k"] == "MemberExpr" and x.get("mname") == field for x in walk(h)) for h in hdr):
                 raise AnalysisBroken("%s: iteration over %s is not a range-for (loop at %s): shape not covered" % (what, field, n.get("loc")))
+
+
+def enum_edges(g, call_pat, enum_name):
+    """[(bid, label of 'the value is <enum_name>')] over the comparisons of a call matching call_pat (e.g. MacroMetadata::event) with
+    the enumerator whose qualified name ends with enum_name"""
+    from qlib import norm_cmp, walk, is_call
+    out = []
+    for bid, b in g.blocks.items():
+        c = g.term_cond(bid)
+        nc = norm_cmp(c) if c is not None else None
+        if nc and nc[0] in ("==", "!=") and any(is_call(x, call_pat) for x in walk(c)) and \
+                any(x["k"] == "DeclRefExpr" and x.get("dk") == "EnumConstant" and x.get("name", "").endswith("::" + enum_name) for x in walk(c)):
+            out.append((bid, "T" if nc[0] == "==" else "F"))
+    return out
+
+
+def only_when(g, positions, edges):
+    """positions are reachable only through (at least) one of the labelled outcomes"""
+    return bool(positions) and bool(edges) and not g.exists_path([g.entry_node], positions, avoid_edges=edges)
+
+
+def never_when(g, positions, edges):
+    """positions are unreachable once any of the labelled outcomes has been taken: every path to them uses only the other outcomes.
+    Checked as: from the target of each labelled edge the positions are unreachable."""
+    for (b, l) in edges:
+        tgt = [y for (y, lab) in g.succ.get(tnode(g, b), ()) if lab == l]
+        if g.exists_path(tgt, positions) or any(t in positions for t in tgt):
+            return False
+    return bool(edges)
+
+
+def reach_under_enum(g, call_pat, enumerators, value):
+    """graph nodes reachable from the entry on the assumption that every evaluation of the call matching call_pat yields the
+    enumerator `value`: tests of that call against an enumerator are decided (the inconsistent outcome is removed), every other branch
+    stays open. `enumerators` = all enumerator names of the type (so that tests against any of them are decided)."""
+    return set(g.reach([g.entry_node], avoid_edges=inconsistent_edges(g, call_pat, enumerators, value), include_src=True))
+
+
+def inconsistent_edges(g, call_pat, enumerators, value):
+    """the branch outcomes that cannot be taken when the call matching call_pat yields the enumerator `value`"""
+    avoid = []
+    for e in enumerators:
+        for (b, lab) in enum_edges(g, call_pat, e):
+            avoid.append((b, other(lab)) if e == value else (b, lab))
+    return avoid
